@@ -6,7 +6,8 @@ import Uquic.Proofs.WireLongHeader
 set_option linter.unusedSimpArgs false
 set_option linter.unusedVariables false
 
-namespace Uquic.Proofs.Wire
+namespace Uquic.Proofs.WireMore
+open Uquic.Proofs.Wire
 open Uquic.Model.Wire Uquic.Model.Wire.Varint Uquic.Model.Wire.Hdr
 
 /-- where `parseLongHeader` finds the two connection IDs, whenever it gets past them (success, or
@@ -264,4 +265,4 @@ theorem parseConnectionID_appendShort (cid : Bytes) (pn pnLen kp : Nat) (b rest 
     rw [if_neg (by omega)]
     simp [List.take_left']
 
-end Uquic.Proofs.Wire
+end Uquic.Proofs.WireMore
